@@ -34,6 +34,11 @@ def build(desc, s):
             td["argmaps"] = {"path": "conf/%s-argmaps" % t}
         elif desc["argdir"] == "shared":
             td["argmaps"] = {"path": "conf/shared-argmaps"}   # one argmap directory for all targets
+        if desc.get("argdefs") is not None:
+            # the target's configuration carries an argmaps.definitions table (empty, naming something unrelated, or
+            # naming one of the files); the files in the argmap directory are used all the same
+            td.setdefault("argmaps", {})["definitions"] = {"empty": {}, "unrelated": {"release": {"path": "conf/release-args.json"}},
+                                                           "some": {"m1": {"path": os.path.join(t, "monorail/argmap/m1.json")}}}[desc["argdefs"]]
         if desc["cmdsrc"] == "custompath":
             td["commands"] = {"path": "tools/%s-cmds" % t}
         elif desc["cmdsrc"] in ("defpath", "defmissing"):
@@ -253,6 +258,13 @@ def scenarios(tier):
             if sel:
                 d_["select"] = sel
             out.append(d_)
+    # (2l) targets whose configuration has an argmaps.definitions table
+    for ad in ("empty", "unrelated", "some"):
+        for o in (None, ["m1"], ["m2", "m1"]):
+            for nb in (False, True):
+                files = [{"base": "args", "m1": "args", "m2": "args"}, {"base": "args", "m1": "nocmd", "m2": None}]
+                out.append({"targets": 2, "commands": ["build", "test"], "files": files, "argmaps_opt": o, "no_base": nb,
+                            "args": None, "argdir": "default", "cmdsrc": "default", "vocab": plain, "argdefs": ad})
     # (2j) argmap names that contain a dot (v1.2, ci.linux), with decoy files named after the part before the dot
     for argdir in ("default", "custom"):
         for o in (["m1"], ["m2", "m1"], ["m1", "missing"]):
